@@ -34,6 +34,9 @@ FEATURES = [
     'misaligned',          # water level on another step (2/3 of the rain step), interpolated by load
     'long',
     'displace_exhaust',    # a displaced storm with no candidate left
+    'rise_many_storms',    # one rise overlapping 3-5 storms
+    'storm_many_rises',    # one storm overlapping 3-5 rises
+    'lead_storm_rise_many',
     None,
     None,
 ]
@@ -104,6 +107,43 @@ def gen(rng, force=None, dyadic=None, max_segments=10):
             a, g, b = rng.randint(1, 3), rng.randint(1, 2), rng.randint(1, 3)
             rain.extend([heavy() for _ in range(a)] + [light() for _ in range(g)] + [heavy() for _ in range(b)])
             dz.extend(big() for _ in range(a + g + b))
+        elif kind == 'rise_many_storms':
+            # one continuous rise under 3-5 separate bursts (rain pauses or
+            # drops below the threshold in between)
+            k = rng.randint(3, 5)
+            first_len = rng.randint(1, 4)
+            for b in range(k):
+                m = first_len if b == 0 else rng.randint(1, 2)
+                rain.extend(heavy() for _ in range(m))
+                dz.extend(big() for _ in range(m))
+                if b < k - 1:
+                    g = rng.randint(1, 2)
+                    rain.extend(light() for _ in range(g))
+                    dz.extend(big() for _ in range(g))
+        elif kind == 'storm_many_rises':
+            # one long storm under which the level rises in 3-5 separate limbs
+            k = rng.randint(3, 5)
+            for b in range(k):
+                m = rng.randint(1, 2)
+                rain.extend(heavy() for _ in range(m))
+                dz.extend(big() for _ in range(m))
+                if b < k - 1:
+                    g = rng.randint(1, 2)
+                    rain.extend(heavy() for _ in range(g))
+                    dz.extend(small() for _ in range(g))
+        elif kind == 'lead_storm_rise_many':
+            # a storm that starts well before a rise which then spans 2 more bursts
+            lead = rng.randint(2, 4)
+            rain.extend(heavy() for _ in range(lead))
+            dz.extend(small() for _ in range(lead - 1))
+            dz.append(big())
+            for b in range(rng.randint(2, 3)):
+                g = rng.randint(1, 2)
+                rain.extend(light() for _ in range(g))
+                dz.extend(big() for _ in range(g))
+                m = rng.randint(1, 2)
+                rain.extend(heavy() for _ in range(m))
+                dz.extend(big() for _ in range(m))
         elif kind == 'chain':
             n = rng.randint(2, 5)
             # staggered: storm k on steps [4k, 4k+3), rise k on steps [4k+2, 4k+5)
@@ -140,7 +180,8 @@ def gen(rng, force=None, dyadic=None, max_segments=10):
 
     kinds = ['dry', 'dry', 'drizzle', 'storm', 'storm_lag', 'storm_two_rises',
              'rise_two_storms', 'chain', 'mystery', 'tie_rain', 'tie_jump',
-             'displace_exhaust']
+             'displace_exhaust', 'rise_many_storms', 'storm_many_rises',
+             'lead_storm_rise_many']
     first = rng.choice(['storm', 'chain', 'dry', 'dry', 'storm_two_rises', 'drizzle'])
     last = rng.choice(['storm', 'dry', 'dry', 'storm_two_rises', 'rise_two_storms', 'drizzle'])
     nseg = rng.randint(1, max_segments)
@@ -152,7 +193,8 @@ def gen(rng, force=None, dyadic=None, max_segments=10):
     elif force in ('end_rain', 'end_rise'):
         last = rng.choice(['storm', 'rise_two_storms', 'storm_two_rises'])
     elif force in ('chain', 'storm_two_rises', 'rise_two_storms', 'tie_rain',
-                   'tie_jump', 'mystery', 'drizzle', 'displace_exhaust'):
+                   'tie_jump', 'mystery', 'drizzle', 'displace_exhaust',
+                   'rise_many_storms', 'storm_many_rises', 'lead_storm_rise_many'):
         middle = force
     elif force == 'long':
         nseg = rng.randint(40, 80)
